@@ -146,10 +146,11 @@ func init() {
 		}
 		sig := c.typeOf(fv.Lit.lit).(*types.Signature)
 		evalAt := func(j string, guard string) string {
-			saved := st.pc
-			st.pc = c.define("pc", "Bool", sAnd(saved, guard))
-			v := c.inlineBody(st, "sort.Search$pred", sig, fv.Lit.lit.Body, nil, nil, []Val{{K: KInt, S: j, T: types.Typ[types.Int]}}, fv.Lit.info, c.pkg, true)
-			st.pc = saved
+			// the predicate is evaluated in a scratch copy of the state: it must be pure
+			// (its calls are checked against their contracts), so only its value is kept
+			tmp := st.clone()
+			tmp.pc = c.define("pc", "Bool", sAnd(st.pc, guard))
+			v := c.inlineBody(tmp, "sort.Search$pred", sig, fv.Lit.lit.Body, nil, nil, []Val{{K: KInt, S: j, T: types.Typ[types.Int]}}, fv.Lit.info, c.pkg, true)
 			return v.S
 		}
 		// safety of the predicate for an arbitrary index in range
@@ -160,5 +161,19 @@ func init() {
 		c.assume(st, sOr(sx("=", r, n), at))
 		c.assume(st, sOr(sx("=", r, "0"), sNot(before)))
 		return res
+	}
+}
+
+// flip.Bytes(p): reverses p in place.
+func init() {
+	externs["github.com/go-flip/flip.Bytes"] = func(c *FnCtx, st *State, call *ast.CallExpr, recv *Val, args []Val) Val {
+		p := args[0]
+		key := c.elemKey(types.Typ[types.Uint8])
+		o, n := c.havocHeap(st, key)
+		c.assume(st, fmt.Sprintf("(forall ((r Int) (i Int)) (! (=> (not (and (= r %s) (<= %s i) (< i (+ %s %s)))) (= (%s r i) (%s r i))) :pattern ((%s r i))))",
+			p.ref(), p.off(), p.off(), p.ln(), n, o, n))
+		c.assume(st, fmt.Sprintf("(forall ((j Int)) (! (=> (and (<= %s j) (< j (+ %s %s))) (= (%s %s j) (%s %s (- (+ (+ %s %s) %s) (+ j 1))))) :pattern ((%s %s j))))",
+			p.off(), p.off(), p.ln(), n, p.ref(), o, p.ref(), p.off(), p.off(), p.ln(), n, p.ref()))
+		return Val{K: KUnit}
 	}
 }
